@@ -111,8 +111,25 @@ KNOWN_SIGS = {"20da0020": ["abcd", "00ff", "8000"], "60d20020": ["1234"]}
 KNOWN_REGS = {"20da0020": ["abcdef", "000001"], "60d20020": ["123456"]}
 
 
+HARVEST = []          # 8-hex-digit constants the code under test carries (filled by install)
+
+
+def other_model(rng):
+    """A chip model WITHOUT chip data: random; one EC level / one bit away from a model that has data; or a constant that
+    the decoder itself carries (a table of 'compatible' or special-cased models would be keyed by exactly those)."""
+    r = rng.random()
+    if HARVEST and r < 0.3:
+        return rng.choice(HARVEST)
+    if r < 0.5:
+        v = int(rng.choice(KNOWN_MODELS), 16)
+        v = (v + rng.choice([1, 2, -1, 0x10, -0x10])) & 0xFFFFFFFF if rng.random() < 0.6 else v ^ (1 << rng.randrange(32))
+        m = "%08x" % v
+        return m if m not in KNOWN_MODELS else "%08x" % rng.randrange(1 << 32)
+    return "%08x" % rng.randrange(1 << 32)
+
+
 def rand_sig(rng):
-    model = rng.choice(KNOWN_MODELS) if rng.random() < 0.6 else "%08x" % rng.randrange(1 << 32)
+    model = rng.choice(KNOWN_MODELS) if rng.random() < 0.6 else other_model(rng)
     b = bytearray(rng.randrange(256) for _ in range(8))
     if rng.random() < 0.3:
         b[3] = rng.choice([1, 2, 3, 4, 5, 0, 255])            # attention type
@@ -134,6 +151,12 @@ def install(ctx):
     harness.import_all_repo_modules()
     from pel.hwdiags.parserdata import ParserData
     o_sig, o_reg = ParserData.get_signature, ParserData.get_reg_data
+    import re
+    import sys
+    mods = [m for m in sys.modules if m.startswith(("pel.hwdiags", "udparsers.oe500", "srcparsers.oe500"))]
+    HARVEST[:] = sorted(v.lower() for v in harness.harvest_constants(
+        mods, lambda v: isinstance(v, str) and re.fullmatch(r"[0-9a-fA-F]{8}", v)) if v.lower() not in KNOWN_MODELS)
+    ctx.counters["models.carried_by_the_code"] += len(HARVEST)
 
     def get_signature(self, a, b, c):
         res = o_sig(self, a, b, c)
@@ -197,7 +220,7 @@ def run(spec, ctx):
                 except Exception as e:
                     ctx.violation("C20/signature-error", "get_signature(%s, %s, %s) [chip data %s] raised %r" % (a, b, c, spec["cfg"], e))
             for i in range(1500):
-                model = rng.choice(KNOWN_MODELS) if rng.random() < 0.7 else "%08x" % rng.randrange(1 << 32)
+                model = rng.choice(KNOWN_MODELS) if rng.random() < 0.7 else other_model(rng)
                 rid = rng.choice(KNOWN_REGS.get(model, ["ffffff"])) if rng.random() < 0.7 else "%06x" % rng.randrange(1 << 24)
                 inst = rng.choice([0, 1, 2, 3, 255, rng.randrange(256)])
                 ctx.case("reg" + model + rid + str(inst) + spec["cfg"], True)
@@ -224,7 +247,7 @@ def gen_ud(rng):
         sigs = [rand_sig(rng) for _ in range(n)]
         if n >= 2 and rng.random() < 0.5:      # the same position/signature words under different chip models
             a0, b0, c0 = sigs[0]
-            sigs = [(rng.choice(KNOWN_MODELS + ["%08x" % rng.randrange(1 << 32)]), b0, c0) for _ in range(n)]
+            sigs = [(rng.choice(KNOWN_MODELS + [other_model(rng)]), b0, c0) for _ in range(n)]
         payload = struct.pack(">I", n) + b"".join(bytes.fromhex(a + b + c) for a, b, c in sigs)
         return 1, payload, {"Signature List": [sig_ref(a, b, c) for a, b, c in sigs]}, ("siglist", n)
     if r < 0.75:
@@ -233,7 +256,7 @@ def gen_ud(rng):
         # without chip data - so that anything remembered from one chip and shown for another is visible
         shared = rng.sample(["abcdef", "123456", "000001", "%06x" % rng.randrange(1 << 24)], 3) if rng.random() < 0.5 else None
         for _ in range(rng.choice([0, 1, 2, 3, 6])):
-            model = rng.choice(KNOWN_MODELS) if rng.random() < 0.6 else "%08x" % rng.randrange(1 << 32)
+            model = rng.choice(KNOWN_MODELS) if rng.random() < 0.6 else other_model(rng)
             regs = []
             for _k in range(rng.choice([0, 1, 2, 5, 12])):
                 rid = rng.choice(KNOWN_REGS.get(model, ["ffffff"])) if rng.random() < 0.6 else "%06x" % rng.randrange(1 << 24)
